@@ -165,7 +165,9 @@ func lookupAVP(p *dict.Parser, app uint32, k dKey, v int64) dRes {
 	return r
 }
 
-func runDict(id int, c *dictCase) dictLine {
+// runDict: rev = the applications are queried in descending order (the outcome of a lookup must not
+// depend on which lookups were made before it, e.g. through something remembered by a failed one).
+func runDict(id int, c *dictCase, rev bool) dictLine {
 	l := dictLine{Ev: "dict", ID: id, Loaded: c.Loaded, Files: c.Files, LoadedOK: true, Steps: []dStep{}}
 	for i := range l.Files {
 		if l.Files[i].Cmds == nil {
@@ -174,6 +176,9 @@ func runDict(id int, c *dictCase) dictLine {
 	}
 	p, _ := dict.NewParser()
 	apps := []uint32{0, 1, 4, 16777251, 77, 99}
+	if rev {
+		apps = []uint32{99, 77, 16777251, 4, 1, 0}
+	}
 	var keys []dKey
 	for _, code := range []uint32{5001, 5002, 5003, 5004} {
 		keys = append(keys, dKey{Code: code})
@@ -488,7 +493,9 @@ func Dict(a Args) error {
 				return err
 			}
 			id++
-			out.Emit(runDict(id, &c))
+			out.Emit(runDict(id, &c, false))
+			id++
+			out.Emit(runDict(id, &c, true))
 			return nil
 		})
 		if err != nil {
